@@ -232,6 +232,30 @@ theorem xpanic_frame (m : Matrix α) (h : m.Inv) (x : XOp α)
         exact panic_frame m h (.insertColumnWith column values) hp
     · rfl
 
+/-- **What the property itself demands of an in-place map whose closure panics** (whatever the
+    visiting order and however much of the work was done — this is the statement the `obs` part
+    of the correspondence compares; the exact pattern of mapped cells of `xstep_refines` is
+    code-shaped detail): the survivor satisfies the invariant, has the size it had, and every
+    cell holds either its old value or the mapped value. -/
+theorem inplace_map_panic_obs (m : Matrix α) (h : m.Inv) (f : α → α) (g : α → Nat → Nat → α)
+    (k i j : Nat) :
+    ((m.mapMutPanic f k).state.Inv ∧ (m.mapMutPanic f k).state.size = m.size ∧
+      (Rows.cell (abs (m.mapMutPanic f k).state) i j = Rows.cell (abs m) i j ∨
+       Rows.cell (abs (m.mapMutPanic f k).state) i j = (Rows.cell (abs m) i j).map f)) ∧
+    ((m.mapMutWithIndexPanic g k).state.Inv ∧ (m.mapMutWithIndexPanic g k).state.size = m.size ∧
+      (Rows.cell (abs (m.mapMutWithIndexPanic g k).state) i j = Rows.cell (abs m) i j ∨
+       Rows.cell (abs (m.mapMutWithIndexPanic g k).state) i j =
+         (Rows.cell (abs m) i j).map fun x => g x i j)) := by
+  obtain ⟨a1, a2, _⟩ := xexec_spec m h (.mapMutPanic f k)
+  obtain ⟨b1, b2, _⟩ := xexec_spec m h (.mapMutWithIndexPanic g k)
+  simp only [Matrix.xexec, Rows.xnext] at a1 a2 b1 b2
+  refine ⟨⟨a1, rfl, ?_⟩, ⟨b1, rfl, ?_⟩⟩
+  · show Rows.cell (m.mapMutPanic f k).state.toRows i j = _ ∨ Rows.cell (m.mapMutPanic f k).state.toRows i j = _
+    rw [a2]; exact cell_mapFirst_old_or_mapped k (fun x _ _ => f x) _ i j
+  · show Rows.cell (m.mapMutWithIndexPanic g k).state.toRows i j = _ ∨
+      Rows.cell (m.mapMutWithIndexPanic g k).state.toRows i j = _
+    rw [b2]; exact cell_mapFirst_old_or_mapped k g _ i j
+
 /-- The in-place maps never change the size, whether or not their closure panics. -/
 theorem inplace_map_keeps_size (m : Matrix α) (f : α → α) (g : α → Nat → Nat → α) (k : Nat) :
     (m.mapMutPanic f k).state.size = m.size ∧ (m.mapMutWithIndexPanic g k).state.size = m.size :=
